@@ -6,7 +6,6 @@ pub mod c02;
 pub mod c03;
 pub mod c04;
 pub mod c05;
-pub mod gen_out;
 pub mod c06;
 pub mod c07;
 pub mod c07_app;
@@ -20,7 +19,26 @@ pub mod c16;
 pub mod c17;
 pub mod c18;
 pub mod c19;
+pub mod gen_out;
 
 pub fn all<C: Codec>() -> Vec<Property> {
-    vec![c01::property::<C>(), c02::property::<C>(), c03::property::<C>(), c04::property::<C>(), c05::property::<C>(), c06::property::<C>(), c07::property::<C>(), c08::property::<C>(), c11::property::<C>(), c12::property::<C>(), c13::property::<C>(), c14::property::<C>(), c15::property::<C>(), c16::property::<C>(), c17::property::<C>(), c18::property::<C>(), c19::property::<C>()]
+    vec![
+        c01::property::<C>(),
+        c02::property::<C>(),
+        c03::property::<C>(),
+        c04::property::<C>(),
+        c05::property::<C>(),
+        c06::property::<C>(),
+        c07::property::<C>(),
+        c08::property::<C>(),
+        c11::property::<C>(),
+        c12::property::<C>(),
+        c13::property::<C>(),
+        c14::property::<C>(),
+        c15::property::<C>(),
+        c16::property::<C>(),
+        c17::property::<C>(),
+        c18::property::<C>(),
+        c19::property::<C>(),
+    ]
 }
